@@ -41,10 +41,14 @@ class Step:
             chk += "cat %s > obs/%s.rsp; " % (rsp[0], name)
         self.cmd = pre + chk + body        # the evaluated command string n2 must pass to sh
 
-def token_payload(step_no, ntok, tail):
-    """ntok lines of 16 bytes '@NN:SSSSSSS:xxx\\n' plus `tail` bytes '#' without newline."""
-    lines = ["@%02d:%07d:xxx\n" % (step_no, i) for i in range(ntok)]
-    return "".join(lines) + "#" * tail
+RAWMARK = b"\xff\xfe\xc3"      # bytes that are not UTF-8 (what a command prints is bytes, not text)
+
+def token_payload(step_no, ntok, tail, raw=False):
+    """ntok lines of 16 bytes '@NN:SSSSSSS:xxx\\n' plus `tail` bytes '#' without newline; with
+    raw, the filler xxx is three bytes that are not valid UTF-8.  Returns bytes."""
+    fill = RAWMARK if raw else b"xxx"
+    lines = [b"@%02d:%07d:" % (step_no, i) + fill + b"\n" for i in range(ntok)]
+    return b"".join(lines) + b"#" * tail
 
 def manifest(steps, pools=(), builddir=None):
     out = []
@@ -108,7 +112,7 @@ def run_n2(n2, cwd, args, timeout=120, use_pty=None, stack_mb=None):
     os.close(m)
     return p.wait(), buf
 
-TOK = re.compile(rb"@(\d\d):(\d{7}):xxx\n")
+TOK = re.compile(rb"@(\d\d):(\d{7}):(?:xxx|\xff\xfe\xc3)\n")
 
 def parse_tokens(out, nsteps):
     """Runs of consecutive token numbers per step, in order of appearance."""
@@ -308,11 +312,11 @@ def scenario(n2, root, sid, steps, j, wantexit, events, pools=(), payloads=True,
     os.makedirs(os.path.join(sdir, "obs")); os.makedirs(os.path.join(sdir, "pay")); os.makedirs(os.path.join(sdir, "m"))
     for no, s in enumerate(steps):
         if True:
-            data = token_payload(no, s.ntok, s.tail)
+            data = token_payload(no, s.ntok, s.tail, raw=getattr(s, "raw", False))
             # thirds: stdout, stderr, stdout (cut at token boundaries)
             a = (s.ntok // 3) * 16; b = (2 * s.ntok // 3) * 16
             for part, seg in (("a", data[:a]), ("b", data[a:b]), ("c", data[b:])):
-                open(os.path.join(sdir, "pay", "%s.%s" % (s.name, part)), "w").write(seg)
+                open(os.path.join(sdir, "pay", "%s.%s" % (s.name, part)), "wb").write(seg)
         for i in s.ins:
             if not any(i in t.outs for t in steps):
                 open(os.path.join(sdir, i), "w").write("src\n")
@@ -370,7 +374,9 @@ def generate_and_run(tier, seed, wdir):
         for j in ([1, 4, 16] if tier == "quick" else [1, 2, 4, 8, 16]):
             steps = []
             for k, sz in enumerate(sizes):
-                steps.append(Step("v%d" % k, emit("v%d" % k) + "echo done > v%d.out" % k, ntok=sz // 16, tail=sz % 16))
+                st = Step("v%d" % k, emit("v%d" % k) + "echo done > v%d.out" % k, ntok=sz // 16, tail=sz % 16)
+                st.raw = (k % 3 == 1)     # every third command prints bytes that are not UTF-8
+                steps.append(st)
             scenario(n2, root, "volume-j%d" % j, steps, j, 0, ev)
         # 3. exit codes and signals
         steps = []
@@ -499,9 +505,9 @@ def generate_and_run(tier, seed, wdir):
             for d in ("obs", "pay", "m"):
                 os.makedirs(os.path.join(sdir, d))
             for no, s in enumerate(steps):
-                data = token_payload(no, s.ntok, s.tail)
+                data = token_payload(no, s.ntok, s.tail, raw=getattr(s, "raw", False))
                 for part, seg in (("a", data[:16]), ("b", data[16:32]), ("c", data[32:])):
-                    open(os.path.join(sdir, "pay", "%s.%s" % (s.name, part)), "w").write(seg)
+                    open(os.path.join(sdir, "pay", "%s.%s" % (s.name, part)), "wb").write(seg)
             open(os.path.join(sdir, "build.ninja"), "w").write(manifest(steps))
             rc, out = run_n2(n2, sdir, ["-j", "2"], use_pty=cols)
             outs_ok = all(os.path.exists(os.path.join(sdir, "t%d.out" % i)) for i in range(4))
@@ -512,6 +518,25 @@ def generate_and_run(tier, seed, wdir):
             ev.append({"e": "xfancy", "cols": cols if cols >= 10 else 80, "j": 2, "frames": frames})
             ev.append({"e": "xcon", "items": items, "steps": table, "ran": sorted(s.name for s in steps),
                        "exit": rc, "fancy": True})
+        # 9a. what a running task printed last is shown under its message, cut to the terminal: lines
+        #     of multi-byte text and of bytes that are not UTF-8 at all, longer than any width used
+        #     (only the frames are judged here)
+        for cols in ((10, 40) if tier == "quick" else (10, 17, 40, 80)):
+            steps = [Step("y0", "printf 'ünïcödé ☃☃☃☃☃☃☃☃☃☃☃☃☃☃☃☃☃☃☃☃☃☃☃☃☃☃☃☃☃☃☃☃☃☃☃☃☃☃☃☃☃☃ 𝄞𝄞𝄞𝄞𝄞𝄞𝄞𝄞𝄞𝄞𝄞𝄞\\n'; sleep 0.7; echo x > y0.out", desc="Y0"),
+                     Step("y1", "printf '\\377\\376\\375\\374\\373\\372\\371\\370\\367\\366\\365\\364\\363\\362\\361\\360\\357\\356\\355\\354\\353\\352\\351\\350\\347\\346\\345\\344\\343\\342\\341\\340 tail of raw bytes that goes on and on and on and on and on and on and on\\n'; sleep 0.7; echo x > y1.out", desc="Y1"),
+                     Step("y2", "printf 'aaaaaaaaaaaaaaaaaaaaaaaaaaaaaaaaaaaaaaa€€€€€€€€€€€€€€€€€€€€€€€€€€€€€€€€€€€€€€€€€€€\\n'; sleep 0.7; echo x > y2.out", desc="Y2")]
+            sdir = os.path.join(root, "ptyu%d" % cols); shutil.rmtree(sdir, ignore_errors=True)
+            for d in ("obs", "pay", "m"):
+                os.makedirs(os.path.join(sdir, d))
+            open(os.path.join(sdir, "build.ninja"), "w").write(manifest(steps))
+            ev.append({"e": "xscn", "id": "ptyu%d" % cols})
+            rc, out = run_n2(n2, sdir, ["-j", "3"], use_pty=cols)
+            outs_ok = all(os.path.exists(os.path.join(sdir, "y%d.out" % i)) for i in range(3))
+            ev.append({"e": "xeq", "props": ["C20"], "tag": "pty-isolation", "a": [rc, outs_ok], "b": [0, True], "cols": cols})
+            frames, _ = fancy_frames(out, steps)
+            ev.append({"e": "xfancy", "cols": cols, "j": 3, "frames": frames})
+            ev.append({"e": "xeq", "props": ["C20"], "tag": "last-line-shown",
+                       "a": any(l[0] == "last" for f in frames for l in f["lines"]), "b": True})
         # 9b. many tasks at once (more than the display lists), long-running ones (time notes),
         #     a failing one, output without final newline
         for cols in ((10, 30, 80) if tier == "quick" else (10, 12, 30, 47, 80, 200)):
@@ -529,10 +554,10 @@ def generate_and_run(tier, seed, wdir):
             for d in ("obs", "pay", "m"):
                 os.makedirs(os.path.join(sdir, d))
             for no, s in enumerate(steps):
-                data = token_payload(no, s.ntok, s.tail)
+                data = token_payload(no, s.ntok, s.tail, raw=getattr(s, "raw", False))
                 a = (s.ntok // 3) * 16; b = (2 * s.ntok // 3) * 16
                 for part, seg in (("a", data[:a]), ("b", data[a:b]), ("c", data[b:])):
-                    open(os.path.join(sdir, "pay", "%s.%s" % (s.name, part)), "w").write(seg)
+                    open(os.path.join(sdir, "pay", "%s.%s" % (s.name, part)), "wb").write(seg)
             open(os.path.join(sdir, "build.ninja"), "w").write(manifest(steps))
             ev.append({"e": "xscn", "id": "ptyx%d" % cols})
             rc, out = run_n2(n2, sdir, ["-j", "11", "-k", "0"], use_pty=cols)
